@@ -455,7 +455,7 @@ func genC19(tier string) []Scenario {
 	// raw sequences
 	rawLen := 3
 	if tier == "thorough" {
-		rawLen = 4
+		rawLen = 5
 	}
 	for _, batch := range []bool{false, true} {
 		alpha := cfgAlphabet(batch)
